@@ -326,7 +326,9 @@ func runC12(c *fw.Ctx) {
 		if i == 0 {
 			c.Sample(progText(forms))
 		}
-		diffProgram(c, b, fmt.Sprintf("macro-%d", i), forms, pg.GlobalNames(), "macro:")
+		if !diffProgram(c, b, fmt.Sprintf("macro-%d", i), forms, pg.GlobalNames(), "macro:") {
+			continue
+		}
 		// relation on every top-level form that is a call of a user or library macro (also below a trace!)
 		macros := map[string]bool{}
 		for k := range lib {
@@ -365,7 +367,9 @@ func runC12(c *fw.Ctx) {
 		if !c12IsMacroCall(pg2, f, lib) {
 			continue
 		}
-		diffProgram(c, b, fmt.Sprintf("lib-%d", i), []*canon.Node{f}, nil, "libmacro:")
+		if !diffProgram(c, b, fmt.Sprintf("lib-%d", i), []*canon.Node{f}, nil, "libmacro:") {
+			continue
+		}
 		c12Relation(c, b, fmt.Sprintf("librel-%d", i), nil, f)
 		c.Count("library_macro_calls."+f.L[0].S, 1)
 	}
@@ -377,8 +381,8 @@ func init() {
 		ID:         "C12",
 		Run:        runC12,
 		NonTrivial: "template_shapes",
-		Rule: "(a) every quasiquote template with <= N nodes (N=5 quick, 6 thorough) over atoms {1 \"s\" :k x lst nil () []}, lists, vectors, one-key maps and ~e / ~@e with e in {x lst vc em (trace! lst)}; (b) seeded deep templates (splices first/middle/last/adjacent/only, in lists and vectors, literal 'unquote' inside vectors, maps holding unquote forms); results compared with the harness's template substitution; (c) seeded programs defining macros from templates (fixed and & parameters, recursive, expanding to library macros, free symbols resolved at the caller, same definition as def) compared with the reference interpreter, and for every macro call form: EVAL(call) vs EVAL(EVAL('(macroexpand call))) in identically prepared scopes (value modulo gensym names, ordered trace, head of expansion not a macro); (d) library macros cond/and/or/->/->> on effectful operands vs their documented meaning; distinct = distinct template skeletons",
-		Assume: []string{"nested quasiquote levels and hygiene are outside the statement", "gensym-generated symbol names are compared modulo numbering"},
+		Rule:       "(a) every quasiquote template with <= N nodes (N=5 quick, 6 thorough) over atoms {1 \"s\" :k x lst nil () []}, lists, vectors, one-key maps and ~e / ~@e with e in {x lst vc em (trace! lst)}; (b) seeded deep templates (splices first/middle/last/adjacent/only, in lists and vectors, literal 'unquote' inside vectors, maps holding unquote forms); results compared with the harness's template substitution; (c) seeded programs defining macros from templates (fixed and & parameters, recursive, expanding to library macros, free symbols resolved at the caller, same definition as def) compared with the reference interpreter, and for every macro call form: EVAL(call) vs EVAL(EVAL('(macroexpand call))) in identically prepared scopes (value modulo gensym names, ordered trace, head of expansion not a macro); (d) library macros cond/and/or/->/->> on effectful operands vs their documented meaning; distinct = distinct template skeletons",
+		Assume:     []string{"nested quasiquote levels and hygiene are outside the statement", "gensym-generated symbol names are compared modulo numbering"},
 		Finish: func(m *fw.Merged) {
 			m.Floor("templates", 10000)
 			m.Floor("call_vs_expansion", 1000)
